@@ -194,7 +194,7 @@ def print_bdl(p, layout=None, want_doc=False):
                         a.append(("NEXT-TO", q(w["nextto"])))
                 P.block(w["name"], w["kind"], a)
                 if not w.get("noconsblock"):
-                    P.block(consname, "CONSTRUCTION", [("TYPE", "LAYERS"), ("LAYERS", q(w["layers"])), ("ABSORPTANCE", w.get("abs", 0.6))])
+                    P.block(consname, "CONSTRUCTION", [("TYPE", "LAYERS"), ("LAYERS", q(w["layers"]))] + ([] if w.get("noabs") else [("ABSORPTANCE", w.get("abs", 0.6))]))
                 for v in w.get("windows", []):
                     a = [("X", v["x"]), ("Y", v["y"]), ("SETBACK", v.get("setback", 0)), ("HEIGHT", v["h"]), ("WIDTH", v["w"]), ("GAP", q(v["gap"]))]
                     if "coefs" in v:
@@ -290,16 +290,18 @@ def random_project(rng, nspaces=None, with_geometry_walls=False, space_offsets=F
                 m["thick"] = r3(0.01, 0.4)
         else:
             m["r"] = r3(0.05, 0.5)
+    # the ends of the ranges as well (a written 0 or 1 is a value like any other, not "undefined")
+    rb = lambda lo, hi, ends: rng.choice(ends) if rng.random() < 0.25 else r3(lo, hi)
     for g in p["glasses"]:
-        g["u"], g["sc"] = r3(0.8, 5.7), r3(0.2, 0.95)
+        g["u"], g["sc"] = r3(0.8, 5.7), rb(0.2, 0.95, [0.0, 1.0])
     for f in p["frames"]:
-        f["u"], f["abs"], f["width"] = r3(1.0, 5.9), r3(0.2, 0.95), r3(0.03, 0.19)
+        f["u"], f["abs"], f["width"] = r3(1.0, 5.9), rb(0.2, 0.95, [0.0, 1.0]), rb(0.03, 0.19, [0.0])
     for g in p["gaps"]:
         g["pct"], g["inf"] = (100.0 if g["name"] == "PuertaOpaca" else float(rng.choice([0, 5, 25, 60]))), float(rng.choice([3, 9, 27, 50, 100]))
         if rng.random() < 0.6:
             g["du"] = float(rng.randint(1, 30))
         if rng.random() < 0.6:
-            g["tj"] = r3(0.05, 0.9)
+            g["tj"] = rb(0.05, 0.9, [0.0, 1.0])
     # groups of the library elements: written or left out (documented defaults), a different word in every place
     gr = random.Random(rng.random())
     words = ["Grupo %s" % w for w in ("uno", "dos", "tres", "cuatro", "cinco", "seis", "siete", "ocho", "nueve", "diez", "once", "doce", "trece", "catorce",
@@ -346,7 +348,9 @@ def random_project(rng, nspaces=None, with_geometry_walls=False, space_offsets=F
                 if kind == "INTERIOR-WALL":
                     w["intwalltype"] = rng.choice(["STANDARD", "ADIABATIC"])
                 if rng.random() < 0.5:
-                    w["abs"] = round(rng.uniform(0.2, 0.9), 2)
+                    w["abs"] = rng.choice([0.0, 1.0]) if rng.random() < 0.3 else round(rng.uniform(0.2, 0.9), 2)
+                elif rng.random() < 0.4:
+                    w["noabs"] = True       # ABSORPTANCE not written: documented default 0.6
                 edge = ((verts[(vi + 1) % len(verts)][0] - verts[vi][0]) ** 2 + (verts[(vi + 1) % len(verts)][1] - verts[vi][1]) ** 2) ** 0.5
                 if kind == "EXTERIOR-WALL" and edge >= 3 and rng.random() < 0.6:
                     v = {"name": w["name"] + "_V1", "gap": rng.choice(["HuecoDoble", "HuecoDoble", "PuertaOpaca"]), "x": 0.5, "y": 1.0, "w": rng.choice([1.0, 1.5, 2.0]), "h": rng.choice([1.0, 1.25]),
